@@ -309,6 +309,13 @@ func checkParse(t run.TB, c ParseCase) (judged bool) {
 		if first := strings.TrimLeft(c.Input, " \t\r\n"); c.Scanner == "enum" && first != "" && first[0] != '[' {
 			return false
 		}
+		// ... and lists scalars: an inner bracket is where the text stops being an enum rule,
+		// whatever a JSON reader would make of it
+		if c.Scanner == "enum" {
+			if i := strings.IndexAny(c.Input[strings.Index(c.Input, "[")+1:], "[{"); i >= 0 && i+strings.Index(c.Input, "[")+1 <= serr.Offset {
+				return false
+			}
+		}
 	}
 	if !r.HasPos {
 		run.Fail(t, chkParse, c, "parsing error without a position: %v", r)
@@ -369,7 +376,11 @@ func TestParsePositionsOfTheOtherScanners(t *testing.T) {
 		if scanner == "enum" {
 			v = &ref.Value{Kind: ref.KArray}
 			for i, n := 0, rapid.IntRange(0, 6).Draw(t, "n"); i < n; i++ {
-				v.Items = append(v.Items, gen.Value(t, gen.DocOpts{Depth: 0, Width: 0, StrLen: 4}, "item"))
+				it := gen.Value(t, gen.DocOpts{Depth: 0, Width: 0, StrLen: 4}, "item")
+				if it.Kind == ref.KObject || it.Kind == ref.KArray {
+					continue // an enum rule lists scalars: a bracket is where such a text stops being one
+				}
+				v.Items = append(v.Items, it)
 			}
 		} else {
 			v = gen.Value(t, gen.DocOpts{Depth: 3, Width: 3, StrLen: 4, RootContainer: rapid.Bool().Draw(t, "rc")}, "v")
